@@ -150,14 +150,17 @@ theorem instNode_spec {vm : OMap} {nd nd' : NodeS} {base : Nat}
   cases hci : cloneInputsO vm nd.inputs with
   | none => simp [hci] at h
   | some ins =>
-    simp only [hci, Option.some.injEq] at h
+    simp only [hci] at h
+    split at h
+    · cases h
+    simp only [Option.some.injEq] at h
     have hins := cloneInputsO_eq hci
     subst hins
     subst h
     simp only
     have hlen : nd.outputs.length = (List.range' base nd.outputs.length).length := by simp
     have key : ∀ nc' ∈ remapDevO (ioMapO nd.inputs (nd.inputs.map (fun o => o.bind (oimg vm))) nd.outputs
-        (List.range' base nd.outputs.length)) nd.dev, ∀ s' ∈ nc'.specs,
+        (List.range' base nd.outputs.length) ++ vm) nd.dev, ∀ s' ∈ nc'.specs,
         ∃ nc ∈ nd.dev, nc.cfg = nc'.cfg ∧ ∃ s ∈ nc.specs, s'.device = s.device ∧ s'.dims = s.dims ∧
         ((s.value ∈ nd.outputs ∧ s'.value ∈ List.range' base nd.outputs.length) ∨
          (s.value ∉ nd.outputs ∧ some s.value ∈ nd.inputs ∧ oimg vm s.value = some s'.value)) := by
@@ -169,7 +172,7 @@ theorem instNode_spec {vm : OMap} {nd nd' : NodeS} {base : Nat}
       obtain ⟨s, hs, hF⟩ := hs'
       refine ⟨nc, hnc, rfl, s, hs, ?_⟩
       have hv := hio nc hnc s hs
-      rw [ioMapO_eq, olookup_append] at hF
+      rw [ioMapO_eq, List.append_assoc, olookup_append] at hF
       by_cases hvo : s.value ∈ nd.outputs
       · obtain ⟨b, hb, hl⟩ := olookup_outPartO_of_mem hlen hvo
         simp only [hl, Option.or_some] at hF
@@ -179,8 +182,8 @@ theorem instNode_spec {vm : OMap} {nd nd' : NodeS} {base : Nat}
           rcases hv with hv | hv
           · exact hv
           · exact absurd hv hvo
-        rw [olookup_outPartO_of_not_mem hvo, olookup_inPartO] at hF
-        simp only [hvi, if_true, Option.none_or] at hF
+        rw [olookup_outPartO_of_not_mem hvo, olookup_append, olookup_inPartO] at hF
+        simp only [hvi, if_true, Option.none_or, Option.some_or] at hF
         cases hi : oimg vm s.value with
         | none => simp [hi] at hF
         | some b =>
